@@ -155,6 +155,11 @@ func suiteC16(c *Ctx) {
 				if gm == nil {
 					gm = []m3thrift.Metric{}
 				}
+				// model-independent: what the Go reader decodes is the batch that was handed to the encoder
+				if a, b := tagsTok(got.CommonTags)+" "+metricsTok(gm), tagsTok(batch.CommonTags)+" "+metricsTok(ms); a != b {
+					c.Cov.Fail(Failure{Kind: "violated", Clause: "roundtrip", Signature: "c16-decoded-batch-is-not-the-encoded-one", Line: line,
+						Reply: fmt.Sprintf("decoded: %.400s ; encoded: %.400s", a, b)})
+				}
 				c.Cov.Check(c.Drv, fmt.Sprintf("dec %s %s => %d %s %s", p, hx(data), seq, tagsTok(got.CommonTags), metricsTok(gm)), "c16-decode-"+p)
 			}
 			// the server route on the same bytes
